@@ -221,6 +221,8 @@ pub fn run(run: &mut Run, args: &Args) {
         run.case("swap", n, &name_of(o.swap()), true);
     }
 
+    view_strings(run, &mut rng);
+
     let n = run.budget(2500, 60_000);
     for i in 0..n {
         let (cols, nullable) = gen_cols(&mut rng);
@@ -273,6 +275,20 @@ pub fn run(run: &mut Run, args: &Args) {
                 continue;
             }
         };
+        // shapes of the known findings (see notes/C04.md): the case / oracle names carry them so that
+        // known_findings.json can match exactly these and nothing else
+        let mut cs0 = std::collections::BTreeSet::new();
+        e.constructs(&mut cs0);
+        let shape = if cs0.contains("try-cast") {
+            "-trycast"
+        } else if cs0.contains("in-list") {
+            "-inlist"
+        } else {
+            ""
+        };
+        if !shape.is_empty() {
+            run.count(&format!("shape:{}", &shape[1..]));
+        }
         let changed = simp != de;
         run.count(if changed { "simplify:changed" } else { "simplify:unchanged" });
         let mut cs = std::collections::BTreeSet::new();
@@ -284,7 +300,7 @@ pub fn run(run: &mut Run, args: &Args) {
         let orig_s = e.sexp();
         match export_df(&simp, dfs.as_ref()) {
             Ok(simp_s) => {
-                run.case("equiv", &format!("({orig_s} {simp_s} {})", rows_sexp(&rows)), "ok", changed);
+                run.case(&format!("equiv{shape}"), &format!("({orig_s} {simp_s} {})", rows_sexp(&rows)), "ok", changed);
             }
             Err(what) => {
                 run.count(&format!("export-unsupported:{what}"));
@@ -308,7 +324,7 @@ pub fn run(run: &mut Run, args: &Args) {
                 continue;
             }
         };
-        let sig = format!("simplify#{i} {orig_s} => {simp}");
+        let sig = format!("simplify{shape}#{i} {orig_s} => {simp}");
         check_same(run, &sig, &cols, &schema, &rows, &p0, &p1, "ExprSimplifier");
         // data type must be preserved
         if let (Ok(t0), Ok(t1)) = (p0.data_type(schema.as_ref()), p1.data_type(schema.as_ref())) {
@@ -322,7 +338,7 @@ pub fn run(run: &mut Run, args: &Args) {
             Ok(Ok(p2)) => {
                 let ch = format!("{p2}") != format!("{p0}");
                 run.count(if ch { "physical-simplify:changed" } else { "physical-simplify:unchanged" });
-                check_same(run, &format!("physical-simplify#{i} {orig_s} => {p2}"), &cols, &schema, &rows, &p0, &p2, "PhysicalExprSimplifier");
+                check_same(run, &format!("physical-simplify{shape}#{i} {orig_s} => {p2}"), &cols, &schema, &rows, &p0, &p2, "PhysicalExprSimplifier");
             }
             Ok(Err(m)) => {
                 run.count("physical-simplify:error");
@@ -330,6 +346,68 @@ pub fn run(run: &mut Run, args: &Args) {
             }
             Err(p) => run.oracle(false, &format!("physical-simplify panic {orig_s}"), &p),
         }
+    }
+}
+
+/// Utf8View column compared with string literals in both orientations, through the full
+/// `ctx.sql` path (analyzer + optimizer + execution): `SELECT id FROM tv WHERE <pred>`; the kept
+/// ids are judged by the Lean evaluator on the same rows (`sqlfilter`).
+fn view_strings(run: &mut Run, rng: &mut Rng) {
+    use arrow::array::{ArrayRef, Int64Array, StringViewArray};
+    use arrow::datatypes::DataType;
+    let rt = tokio::runtime::Builder::new_current_thread().enable_all().build().unwrap();
+    let n = run.budget(120, 1500);
+    let lits = ["x", "y", "", "xy"];
+    for _ in 0..n {
+        let nrows = 3 + rng.below(6) as usize;
+        let vals: Vec<Option<&str>> = (0..nrows).map(|_| if rng.chance(1, 6) { None } else { Some(*rng.pick(&lits)) }).collect();
+        let schema = Arc::new(Schema::new(vec![Field::new("a", DataType::Utf8View, true), Field::new("id", DataType::Int64, false)]));
+        let a: ArrayRef = Arc::new(StringViewArray::from(vals.clone()));
+        let id: ArrayRef = Arc::new(Int64Array::from((0..nrows as i64).collect::<Vec<_>>()));
+        let batch = arrow::record_batch::RecordBatch::try_new(Arc::clone(&schema), vec![a, id]).unwrap();
+        let ctx = datafusion::prelude::SessionContext::new_with_config(datafusion::prelude::SessionConfig::new().with_target_partitions(1));
+        let mt = datafusion::datasource::MemTable::try_new(Arc::clone(&schema), vec![vec![batch]]).unwrap();
+        ctx.register_table("tv", Arc::new(mt)).unwrap();
+        // predicate: 2–3 atoms `a op L` / `L op a` joined by AND / OR, optionally negated
+        let col = || Expr::Col(0);
+        let lit = |s: &str| Expr::Lit(Val::Str(s.to_string()), Ty::Str, false);
+        let mut atoms = vec![];
+        let mut commuted = (false, false);
+        for _ in 0..(2 + rng.below(2)) {
+            let l = lit(*rng.pick(&lits));
+            let op = *rng.pick(&[Op::Eq, Op::Eq, Op::Eq, Op::Ne, Op::Lt, Op::Ge]);
+            if rng.chance(1, 2) {
+                commuted.0 = true;
+                atoms.push(Expr::bin(op, col(), l));
+            } else {
+                commuted.1 = true;
+                atoms.push(Expr::bin(op, l, col()));
+            }
+        }
+        let conn = *rng.pick(&[Op::And, Op::And, Op::Or]);
+        let mut pred = atoms.pop().unwrap();
+        while let Some(a) = atoms.pop() {
+            pred = Expr::bin(conn, a, pred);
+        }
+        if rng.chance(1, 5) {
+            pred = Expr::Not(Box::new(pred));
+        }
+        let sc = Scope { cols: vec![ColInfo { sql: "tv.a".into(), ty: Ty::Str }], outer: vec![] };
+        let sql = format!("SELECT id FROM tv WHERE {}", pred.sql(&sc));
+        let res = crate::c01::run_sql(&rt, &ctx, &sql);
+        let rows: Vec<Vec<Val>> = vals.iter().map(|v| vec![v.map(|s| Val::Str(s.to_string())).unwrap_or(Val::Null)]).collect();
+        let impl_s = match &res {
+            Ok(r) => {
+                let mut ids: Vec<i64> = r.iter().filter_map(|x| if let Val::Int(_, n) = &x[0] { Some(*n) } else { None }).collect();
+                ids.sort();
+                format!("(ok ({}))", ids.iter().map(|i| i.to_string()).collect::<Vec<_>>().join(" "))
+            }
+            Err(m) => format!("(err {})", err_class(m)),
+        };
+        let both = commuted.0 && commuted.1;
+        run.count(if both { "viewstr:both-orientations" } else { "viewstr:one-orientation" });
+        let op = if both { "sqlfilter-commuted-utf8view" } else { "sqlfilter" };
+        run.case(op, &format!("({} {} {impl_s})", pred.sexp(), rows_sexp(&rows)), "ok", true);
     }
 }
 
